@@ -514,6 +514,16 @@ fn prog_body(prog: &Prog, log: &Arc<Mutex<Vec<Event>>>, stale: &Arc<AtomicU64>) 
 /// have taken effect) that no *acknowledged* write to the same key definitely followed; "absent"
 /// without a delete is only possible if no write to the key was acknowledged.
 fn check_durable_after_reopen(prog: &Prog, fs: &VerifFs, events: &[Event]) -> Option<String> {
+    let r = check_durable_after_reopen_inner(prog, fs, events);
+    if prog.fault.is_none() {
+        // no fault in the program: the database was simply closed while background work could
+        // still be running, and reopened
+        return r.map(|m| m.replacen("C08 after the fault", "C07 after close and reopen", 1));
+    }
+    r
+}
+
+fn check_durable_after_reopen_inner(prog: &Prog, fs: &VerifFs, events: &[Event]) -> Option<String> {
     let db = match DB::open(db_options(fs, &prog.cfg)) {
         Ok(db) => db,
         Err(e) => return Some(format!("C08 after the fault: the database cannot be reopened once the fault is gone: {}", e)),
@@ -909,6 +919,8 @@ pub fn judge(prog: &Prog, out: &Outcome, events: &[Event], stale_uses: u64, atom
                 "C03.snapshot_not_stable"
             } else if m.starts_with("C08 after the fault") {
                 "C08.concurrent_acknowledged_write_lost"
+            } else if m.starts_with("C07 after close and reopen") {
+                "C07.lost_by_close_during_background_work"
             } else if m.starts_with("C11 needed file removed") {
                 "C11.needed_file_removed"
             } else if m.starts_with("C02 crash under concurrency") {
